@@ -419,4 +419,81 @@ mutual
     | (k, v) :: r => k :: stringsVal v ++ stringsKVs r
 end
 
+/-! ## The same two notions for the typed layer -/
+
+def NoCollideUMapV (g : String → String) : UMap Val → Prop
+  | none => True
+  | some kvs => NoCollideKVs g kvs
+
+def NoCollideAdj (g : String → String) (a : Adjustment) : Prop := NoCollideVal g a.skip ∧ NoCollideUMapV g a.rem
+
+def NoCollideMatrix (g : String → String) (m : Matrix) : Prop :=
+  (∀ l, m.adjustments = some l → ∀ a, some a ∈ l → NoCollideAdj g a) ∧ NoCollideUMapV g m.rem
+
+def NoCollideCommand (g : String → String) (c : CommandStep) : Prop :=
+  (∀ l, c.plugins = some l → ∀ p, some p ∈ l → NoCollideVal g p.config) ∧
+  (∀ m, c.matrix = some m → NoCollideMatrix g m) ∧
+  (∀ k, c.cache = some k → NoCollideUMapV g k.rem) ∧
+  NoCollideUMapV g c.rem
+
+mutual
+  def NoCollideStep (g : String → String) : Step → Prop
+    | .command c => NoCollideCommand g c
+    | .wait _ c => NoCollideUMapV g c
+    | .input _ c => NoCollideUMapV g c
+    | .trigger c => NoCollideUMapV g c
+    | .group _ _ ss r => (match ss with | none => True | some l => NoCollideSteps g l) ∧ NoCollideUMapV g r
+    | .unknown v => NoCollideVal g v
+  def NoCollideSteps (g : String → String) : List Step → Prop
+    | [] => True
+    | s :: r => NoCollideStep g s ∧ NoCollideSteps g r
+end
+
+def stringsUMapV : UMap Val → List String
+  | none => []
+  | some kvs => stringsKVs kvs
+
+def stringsUMapS : UMap String → List String
+  | none => []
+  | some kvs => kvs.flatMap fun (k, v) => [k, v]
+
+def stringsPlugins : Option (List (Option Plugin)) → List String
+  | none => []
+  | some l => l.flatMap fun | none => [] | some p => p.source :: stringsVal p.config
+
+def stringsAdj (a : Adjustment) : List String := stringsUMapS a.with_ ++ stringsVal a.skip ++ stringsUMapV a.rem
+
+def stringsMatrix (m : Matrix) : List String :=
+  (match m.setup with | none => [] | some kvs => kvs.flatMap fun (k, v) => k :: v.getD []) ++
+  (match m.adjustments with | none => [] | some l => l.flatMap fun | none => [] | some a => stringsAdj a) ++
+  stringsUMapV m.rem
+
+def stringsCache (c : Cache) : List String := c.name :: (c.paths.getD [] ++ c.size :: stringsUMapV c.rem)
+
+/-- Every string `(*CommandStep).interpolate` hands to the transformer, per transformer kind. -/
+def stringsCommand (kind : TfKind) (c : CommandStep) : List String :=
+  c.command :: c.label :: stringsPlugins c.plugins ++
+  (match kind with
+   | .env => c.key :: stringsUMapS c.env ++ (match c.matrix with | none => [] | some m => stringsMatrix m) ++
+             (match c.cache with | none => [] | some k => stringsCache k)
+   | .matrix => (match c.env with | none => [] | some kvs => kvs.map (·.2))) ++
+  stringsUMapV c.rem
+
+mutual
+  def stringsStep (kind : TfKind) : Step → List String
+    | .command c => stringsCommand kind c
+    | .wait _ c => stringsUMapV c
+    | .input _ c => stringsUMapV c
+    | .trigger c => stringsUMapV c
+    | .group k g ss r => k :: (g.toList ++ (match ss with | none => [] | some l => stringsSteps kind l) ++ stringsUMapV r)
+    | .unknown v => stringsVal v
+  def stringsSteps (kind : TfKind) : List Step → List String
+    | [] => []
+    | s :: r => stringsStep kind s ++ stringsSteps kind r
+end
+
+/-- Kind tag of a step (for "nothing else in the structure changes"). -/
+def stepTag : Step → Nat
+  | .command _ => 0 | .wait _ _ => 1 | .input _ _ => 2 | .trigger _ => 3 | .group _ _ _ _ => 4 | .unknown _ => 5
+
 end GoPipeline.Interp
